@@ -209,7 +209,7 @@ def run(chk, only=None):
             continue
         reqs = ["total %d %s %s" % (c, o, hexof(t)) for _, c, o, t in part]
         try:
-            ans = pv.run_impl(reqs, flavour=fl, shards=pv.NCPU, limit=20)
+            ans = pv.run_impl(reqs, flavour=fl, shards=pv.NCPU, limit=10)
         except pv.BuildError:
             raise
         n_expl += len(reqs)
@@ -265,7 +265,7 @@ def run(chk, only=None):
                     break
                 sep = b" " if unit == "tok" else b""
                 cands = [sep.join(parts[:i] + parts[i + 1:]) for i in range(len(parts))]
-                ans = pv.run_impl(["total %d %s %s" % (c, o, hexof(x)) for x in cands], flavour=fl, shards=pv.NCPU, limit=20)
+                ans = pv.run_impl(["total %d %s %s" % (c, o, hexof(x)) for x in cands], flavour=fl, shards=pv.NCPU, limit=10)
                 nxt = [x for x, a in zip(cands, ans) if failing_class(a) == cls]
                 if not nxt:
                     break
@@ -282,7 +282,7 @@ def run(chk, only=None):
             try:
                 # find the option set under which it fails (the plan used two for plain)
                 for oo in [p[2] for p in plan if p[0] == fl and p[1] == c and p[3] == t]:
-                    if failing_class(pv.run_impl(["total %d %s %s" % (c, oo, hexof(t))], flavour=fl, limit=20)[0]) == cls:
+                    if failing_class(pv.run_impl(["total %d %s %s" % (c, oo, hexof(t))], flavour=fl, limit=10)[0]) == cls:
                         o = oo; break
                 t = shrink(c, t, fl, o, cls)
             except Exception as e:
